@@ -39,6 +39,8 @@ pub fn profile(name: &str) -> Profile {
 pub struct KeyInfo {
     pub cas_seen: Vec<u64>,
     pub deadline: Option<u64>,
+    /// value and flags of the last store generated for this key (re-stored now and then with another TTL / flags)
+    pub last_store: Option<(Vec<u8>, u32)>,
 }
 
 pub struct GenState {
@@ -190,11 +192,26 @@ impl GenState {
                 if t != 0 {
                     self.info.entry(key.clone()).or_default().deadline = Some(self.now + t as u64);
                 }
-                wire::set_like(opc, &key, &value(rng, p, self.item_limit), flags(rng), t, self.cas(rng, p, &key), opaque)
+                // now and then the very same bytes again (same flags, or new ones) with whatever TTL came up
+                let prev = self.info.get(&key).and_then(|i| i.last_store.clone());
+                let (v, fl) = match prev {
+                    Some((pv, pf)) if rng.chance(1, 6) => (pv, if rng.chance(2, 3) { pf } else { flags(rng) }),
+                    _ => (value(rng, p, self.item_limit), flags(rng)),
+                };
+                self.info.entry(key.clone()).or_default().last_store = Some((v.clone(), fl));
+                wire::set_like(opc, &key, &v, fl, t, self.cas(rng, p, &key), opaque)
             }
             3 | 4 => {
                 let opc = if kind == 3 { q(op::APPEND, op::APPENDQ) } else { q(op::PREPEND, op::PREPENDQ) };
-                let v = if rng.chance(1, 2) { rng.bytes(rng.clone().below(6) as usize) } else { value(rng, p, 64) };
+                let v = if self.item_limit > 70000 && rng.chance(1, 3) {
+                    // a suffix / prefix whose body length does not fit 16 bits
+                    let l = rng.range(65530, 70000) as usize;
+                    vec![b'A' + rng.below(26) as u8; l]
+                } else if rng.chance(1, 2) {
+                    rng.bytes(rng.clone().below(6) as usize)
+                } else {
+                    value(rng, p, 64)
+                };
                 wire::append_like(opc, &key, &v, self.cas(rng, p, &key), opaque)
             }
             5 | 6 => {
@@ -218,7 +235,7 @@ impl GenState {
                 let d = match rng.below(5) {
                     0 => None,
                     1 => Some(0),
-                    _ => Some(*rng.pick(&[1u32, 2, 3, 5, 10, 100])),
+                    _ => Some(*rng.pick(&[1u32, 2, 3, 5, 10, 100, 100, 0xffff_ffff, 0xffff_fffe, 0xffff_fff0, 0x8000_0000])),
                 };
                 wire::flush(q(op::FLUSH, op::FLUSHQ), d, opaque)
             }
